@@ -337,6 +337,63 @@ theorem C05_for_prints_index (fuel : Nat) (env : Env) (x : Str) (hx : x ≠ "for
     have h := (C05_forloop_truthful i len parent).1
     exact ⟨_, rfl, by simpa [fld, forloopObj] using h⟩
 
+/-- **tablerow, end to end.** For every collection, `cols:`/`limit:`/`offset:` attributes (`cols` not
+zero) and every pure-printing body: the tag writes, for exactly the selected elements in order, a
+`<tr class="rowR">` before the first cell of each row of `cols` cells, each cell as
+`<td class="colC">body</td>`, and `</tr>` after the last cell of a row and after the very last
+cell (`cellText`); without `cols:` the whole selection is one row. -/
+theorem C05_tablerow_compositional (fuel : Nat) (env : Env) (x : Str) (rng : RangeE) (cols limit offset : Option Expr)
+    (body : Tmpl) (f : Nat → Nat → V → Nat → Str) (rt : Rt) (w : W) (arr : List V) (c lim off : Option Nat)
+    (hr : rng.eval rt.layers = .ok arr) (hc : evalAttr rt.layers cols = .ok c) (hc0 : c ≠ some 0)
+    (hl : evalAttr rt.layers limit = .ok lim) (ho : evalAttr rt.layers offset = .ok off)
+    (hi : rt.regs.interrupt = none) (hb : w.budget = none)
+    (hbody : ∀ len ncols v i, ForNode.WritesIn (renderList (renderN fuel env) body)
+      (ForNode.cellRoot x len ncols v i) (f len ncols v i)) :
+    let sel := selectSpec arr lim (off.getD 0) false
+    ∃ w', renderN (fuel + 1) env (.tablerow x rng cols limit offset body) rt w = (.ok (), rt, w') ∧
+      w'.text = w.text ++ ((sel.zipIdx 0).map fun (v, j) =>
+        ForNode.cellText sel.length (c.getD sel.length) j (f sel.length (c.getD sel.length) v j)).flatten := by
+  intro sel
+  have hsel : iterArray arr lim (off.getD 0) false = sel := C05_window arr lim (off.getD 0) false
+  have hc0' : (c == some 0) = false := by
+    cases c with
+    | none => rfl
+    | some k => cases k with
+      | zero => exact absurd rfl hc0
+      | succ k => rfl
+  cases hs : sel with
+  | nil =>
+    refine ⟨w, ?_, by simp⟩
+    simp [renderN, M.run_bind, hr, hc, hc0, hl, ho, hsel, hs, tableItems]
+  | cons v r =>
+    have hn : c.getD (v :: r).length ≠ 0 := by
+      cases c with
+      | none => simp
+      | some k => simpa using fun h => hc0 (by rw [h])
+    obtain ⟨w', h, _, ht⟩ := ForNode.table_pure x (v :: r).length (c.getD (v :: r).length) hn _
+      (f (v :: r).length (c.getD (v :: r).length)) (fun v' j => hbody _ _ v' j) (v :: r) 0 rt w hi hb
+    refine ⟨w', ?_, ht⟩
+    simp only [renderN, M.run_bind, M.run_getSt, M.run_lift, hr, hc, hc0', hl, ho, hsel, hs, Bool.false_eq_true, if_false]
+    exact h
+
+/-- the instance with the body `{{ x }}` -/
+theorem C05_tablerow_prints_window (fuel : Nat) (env : Env) (x : Str) (rng : RangeE) (cols limit offset : Option Expr)
+    (rt : Rt) (w : W) (arr : List V) (c lim off : Option Nat)
+    (hr : rng.eval rt.layers = .ok arr) (hc : evalAttr rt.layers cols = .ok c) (hc0 : c ≠ some 0)
+    (hl : evalAttr rt.layers limit = .ok lim) (ho : evalAttr rt.layers offset = .ok off)
+    (hi : rt.regs.interrupt = none) (hb : w.budget = none) :
+    let sel := selectSpec arr lim (off.getD 0) false
+    ∃ w', renderN (fuel + 2) env (.tablerow x rng cols limit offset [.output (.var x []) []]) rt w = (.ok (), rt, w') ∧
+      w'.text = w.text ++ ((sel.zipIdx 0).map fun (v, j) =>
+        ForNode.cellText sel.length (c.getD sel.length) j v.render).flatten :=
+  C05_tablerow_compositional (fuel + 1) env x rng cols limit offset _ (fun _ _ v _ => v.render) rt w arr c lim off
+    hr hc hc0 hl ho hi hb (fun len ncols v i => ForNode.print_var_writes_root fuel env x _ v)
+
+/-- what a cell looks like: first cell of a two-column table, and the closing of a row -/
+example : ForNode.cellText 3 2 0 "a".toList = "<tr class=\"row1\"><td class=\"col1\">a</td>".toList ∧
+    ForNode.cellText 3 2 1 "b".toList = "<td class=\"col2\">b</td></tr>".toList ∧
+    ForNode.cellText 3 2 2 "c".toList = "<tr class=\"row2\"><td class=\"col1\">c</td></tr>".toList := by decide
+
 /-- non-vacuity: a literal three-element array with `offset:1` on a fresh runtime -/
 example : ∃ rt' w', renderN 2 {} (.for_ "x".toList (.arr (.lit (.arr [iV 1, iV 2, iV 3]))) none (some (.lit (iV 1))) false
       [.output (.var "x".toList []) []] none) (Rt.build []) {} = (.ok (), rt', w') ∧ w'.text = "23".toList := by
